@@ -134,7 +134,7 @@ theorem dupUnit_roundtrip : ∃ a c,
   obtain ⟨a, c, han⟩ := dupUnit_annots
   refine ⟨a, c, han, fun hne => ?_⟩
   obtain ⟨pb, wb, he⟩ := dupUnit_encode_some a c hne
-  obtain ⟨d, f, hdec, hroot, hnodes, _, hre⟩ := roundtrip_general elemTables JetsE.ofName_nameOf JetsE.nameOf_ofName
+  obtain ⟨d, f, hdec, hroot, hnodes, _, _, hre⟩ := roundtrip_general elemTables JetsE.ofName_nameOf JetsE.nameOf_ofName
     dupUnit arrows3 #[a, a, c] (fun _ => none) (by decide) (by decide) dupUnit_backward
     (by
       intro i nd hp
